@@ -28,6 +28,17 @@ Theorem c14_numprocs :
 Proof. exact numprocs_law. Qed.
 Print Assumptions c14_numprocs.
 
+(* command, directory, environment and log file names are expanded per process *)
+Theorem c14_per_process_expansion :
+  forall expand c sect opts gname klass penv ps,
+  env_keys_only penv ->
+  processes_unsorted expand c sect opts gname klass penv = Ok ps ->
+  exists k s ex0 pes,
+    section_common expand c sect opts gname klass penv = Ok (k, s, ex0) /\ map fst pes = ps /\
+    Forall2 (expanded_per_process expand c opts penv k) (zrange s (k_numprocs k)) pes.
+Proof. exact per_process_expansion. Qed.
+Print Assumptions c14_per_process_expansion.
+
 (* n and s are the values of the numprocs / numprocs_start options (generated
    defaults 1 / 0), the pattern is the process_name option; the two checks *)
 Theorem c14_numprocs_inputs :
